@@ -177,7 +177,8 @@ def check_case(case):
 @st.composite
 def st_dur(draw, decimals):
     kw = draw(G.st_exact_duration_kw(
-        max_days=draw(st.sampled_from([3, 60, 1000])), decimals=decimals,
+        max_days=draw(st.sampled_from([3, 60, 1000, 1000] + (
+            [] if decimals else [10 ** 6, 10 ** 9]))), decimals=decimals,
         signs=draw(st.sampled_from(["any", "any", "mixed"]))))
     if "weeks" not in kw and draw(st.sampled_from([False, False, True])):
         kw.update(draw(G.st_nominal_kw(max_years=50, max_months=40)))
